@@ -290,7 +290,7 @@ def run_c16(ctx):
             if exp == 'raise': ok = f[0] == 'raised:ScriptExecutionError'
             elif exp == 'empty': ok = f[0] == 'done' and f[3] == '-'
             else: ok = f[0] == 'done' and f[3] == ('ff' if exp else '00')
-            if not ok and len(tot['violations']) < 8:
+            if not ok and sum(1 for v in tot['violations'] if not v.get('finding')) < 8:
                 tot['violations'].append(dict(what=label + ': expected %s got %s' % (exp, i[:80]), case=dict(script=script.hex(), cache=tsh.cache_str(cache, False), cfg=cfg.to_json())))
     m.close()
     tot['n'] += n; tot['distinct'] += n
